@@ -248,6 +248,7 @@ static int run_net(const vector<string>& t)
     }
     else if (Angle* an = dynamic_cast<Angle*>(pm)) { kind = "angle"; extra << " " << pt(an->fs()); }
     else if (dynamic_cast<S_Distance*>(pm)) kind = "sdistance";
+    else if (dynamic_cast<Z_Angle*>(pm)) kind = "zangle";
     if (dynamic_cast<const Coordinates*>(pm->ptr_cluster())) kind = "other";
     std::cout << "obs " << i << " " << kind << " " << vp::hex(pm->value()) << " " << vp::hex(v(i));
     if (kind != "other") std::cout << " " << pt(pm->from()) << " " << pt(pm->to()) << extra.str();
